@@ -1,0 +1,11 @@
+//go:build verif
+
+// Contracts for package journal/printer (comment-only file).
+package printer
+
+// Printing a model directive is outside the verified set (formatting of text); it is trusted to touch
+// nothing but the printer's byte counter.
+//@ func (*Printer).PrintDirective
+//@   trusted
+//@   requires p != nil
+//@   modifies p.count
